@@ -757,8 +757,14 @@ def run_case(case, props=("C01", "C02", "C05", "C06", "C10", "C18"), monitors=Tr
         try:
             pts, domain, sampler = run_entry(case, sim, mon)
         except SimBudgetExceeded as ex:
-            out.append(viol("C01", "termination", "draw-budget-exceeded", innermost_site(ex.__traceback__),
-                            msg=str(ex)[:160]))
+            if sim.op_calls <= sim.budget_calls and sim.fired:
+                # element budget under *active value faults*: an adversarial (legal but
+                # probability-zero) acceptance count of 1 makes the library ask for n**2
+                # proposals at every nesting level; it would terminate, it is not a liveness defect
+                stats["growth_under_faults"] = 1
+            else:
+                out.append(viol("C01", "termination", "draw-budget-exceeded", innermost_site(ex.__traceback__),
+                                msg=str(ex)[:160]))
         except Exception as ex:
             site = innermost_site(ex.__traceback__)
             if site.endswith("_check_iteration_number") and isinstance(ex, RuntimeError) and case.get("fault"):
